@@ -470,7 +470,11 @@ fn gather_builtin_features_from_flags_in_gitconfig(
     opt: &cli::Opt,
     git_config: &GitConfig,
 ) {
-    for child_feature in builtin_features.keys() {
+    // Not in HashMap iteration order: the order determines the priority of the features, and
+    // must not differ from one run to the next.
+    let mut builtin_feature_names: Vec<&String> = builtin_features.keys().collect();
+    builtin_feature_names.sort();
+    for child_feature in builtin_feature_names {
         if let Some(true) = git_config.get::<bool>(&format!("{git_config_key}.{child_feature}")) {
             gather_builtin_features_recursively(child_feature, features, builtin_features, opt);
         }
